@@ -56,7 +56,7 @@ func ParseFinalRegistrySource(given string) (RegistrySourceFinal, error) {
 			addr = fmt.Sprintf("%s//%s", addr, matches[4])
 		}
 	}
-	version, err := versions.ParseVersion(ver)
+	version, err := parseVersion(ver)
 	if err != nil {
 		return RegistrySourceFinal{}, fmt.Errorf("invalid version: %w", err)
 	}
@@ -65,6 +65,19 @@ func ParseFinalRegistrySource(given string) (RegistrySourceFinal, error) {
 		return RegistrySourceFinal{}, fmt.Errorf("invalid registry source: %w", err)
 	}
 	return regSrc.Versioned(version), nil
+}
+
+// parseVersion is versions.ParseVersion, except that a panic inside that
+// parser (it panics on a numeric component that does not fit into 64 bits,
+// as in "1.99999999999999999999.0") is reported as an ordinary error.
+func parseVersion(s string) (v versions.Version, err error) {
+	defer func() {
+		if r := recover(); r != nil {
+			v = versions.Unspecified
+			err = fmt.Errorf("invalid version %q: %v", s, r)
+		}
+	}()
+	return versions.ParseVersion(s)
 }
 
 // Unversioned returns the address of the registry package that this final
